@@ -8,10 +8,11 @@ let rec int_of_pos = function XH -> 1 | XO p -> 2 * int_of_pos p | XI p -> 2 * i
 let int_of_z = function Z0 -> 0 | Zpos p -> int_of_pos p | Zneg p -> - (int_of_pos p)
 
 (* ---- names ---- *)
-let kname k = match k with 0 -> "data" | 1 -> "dataset" | 2 -> "__p" | 999 -> "nope" | k -> Printf.sprintf "k%d" k
+(* key 8 has `__` inside its name: not a private name (private = begins with `data` or `__`) *)
+let kname k = match k with 0 -> "data" | 1 -> "dataset" | 2 -> "__p" | 8 -> "kk__8" | 999 -> "nope" | k -> Printf.sprintf "k%d" k
 let key_of_name s =
   match s with
-  | "data" -> Some 0 | "dataset" -> Some 1 | "__p" -> Some 2 | "nope" -> Some 999
+  | "data" -> Some 0 | "dataset" -> Some 1 | "__p" -> Some 2 | "kk__8" -> Some 8 | "nope" -> Some 999
   | _ -> if String.length s >= 2 && s.[0] = 'k' then int_of_string_opt (String.sub s 1 (String.length s - 1)) else None
 let nid_of_name s = if String.length s >= 2 && s.[0] = 'n' then int_of_string_opt (String.sub s 1 (String.length s - 1)) else None
 
